@@ -17,7 +17,7 @@
  *   add_info S <gp> <name> <value>       set_subtype S <gp> <text|->
  *   dup SRC DST
  */
-#include "project.h"
+#include "project_stores.h"
 #include <hwloc.h>
 #include <hwloc/export.h>
 #include <hwloc/distances.h>
@@ -34,7 +34,36 @@ static hwloc_obj_t find_gp(hwloc_topology_t t, unsigned long gp) {
   prj_fini(&P);
   return r;
 }
-static int opt_xmldigest;
+static int opt_xmldigest, opt_stores;
+/* userdata deliveries made by the export callback / received by the import callback */
+struct deliv { unsigned long gp; char name[32]; int hasname; unsigned char data[64]; size_t len; };
+static struct deliv *dv; static unsigned ndv, capdv; static int dv_fail;
+static void dv_add(unsigned long gp, const char *name, const void *buf, size_t len) {
+  if (ndv == capdv) { capdv = capdv ? capdv * 2 : 256; dv = realloc(dv, capdv * sizeof *dv); }
+  dv[ndv].gp = gp; dv[ndv].hasname = name != NULL; snprintf(dv[ndv].name, sizeof dv[ndv].name, "%s", name ? name : "");
+  dv[ndv].len = len; memcpy(dv[ndv].data, buf, len < 64 ? len : 64); ndv++;
+}
+static void out_dv(void) {
+  unsigned i; size_t k;
+  out("[");
+  for (i = 0; i < ndv; i++) {
+    out("%s[%lu,", i ? "," : "", dv[i].gp); if (dv[i].hasname) { out("["); out_jstr(dv[i].name); out("]"); } else out("[]");
+    out(",%zu,[", dv[i].len); for (k = 0; k < dv[i].len && k < 64; k++) out("%s%u", k ? "," : "", dv[i].data[k]); out("]]");
+  }
+  out("]");
+}
+/* what is exported per object is a fixed function of its gp_index (the specification only compares export and import lists) */
+static void export_cb(void *reserved, hwloc_topology_t t, hwloc_obj_t obj) {
+  unsigned long gp = (unsigned long)(obj->gp_index & 0x7fffffff); char txt[32]; unsigned char bin[8]; size_t n, i;
+  snprintf(txt, sizeof txt, "gp<%lu>&\"'", gp);
+  if (hwloc_export_obj_userdata(reserved, t, obj, "tag", txt, strlen(txt)) < 0) dv_fail++; else dv_add(gp, "tag", txt, strlen(txt));
+  if (gp % 2 == 0) { n = gp % 8; for (i = 0; i < n; i++) bin[i] = (unsigned char)(gp * 37 + i * 101);
+    if (hwloc_export_obj_userdata_base64(reserved, t, obj, "b64", bin, n) < 0) dv_fail++; else dv_add(gp, "b64", bin, n); }
+  if (gp % 5 == 0) { if (hwloc_export_obj_userdata(reserved, t, obj, NULL, "", 0) < 0) dv_fail++; else dv_add(gp, NULL, "", 0); }
+}
+static void import_cb(hwloc_topology_t t, hwloc_obj_t obj, const char *name, const void *buffer, size_t length) {
+  (void)t; dv_add((unsigned long)(obj->gp_index & 0x7fffffff), name, buffer, length);
+}
 /* FNV-1a digest of the XML export of a topology, as 4 limbs (the specification only compares digests) */
 static void out_xmldigest(hwloc_topology_t t) {
   char *buf = NULL; int len = 0; uint64_t h = 1469598103934665603ULL; int i;
@@ -48,6 +77,17 @@ static void tag_userdata(hwloc_topology_t t) {
   prj_init(&P, t);
   for (i = 0; i < P.n; i++) if (!P.objs[i]->userdata) P.objs[i]->userdata = (void *)(uintptr_t)(P.objs[i]->gp_index & 0x7fffffff);
   prj_fini(&P);
+}
+/* %XX escapes in text arguments (tab, newline, space, non-ASCII bytes cannot be written in the line-based behaviour format) */
+static char *pct(char *s) {
+  char *r = s, *w = s;
+  if (!s) return s;
+  while (*r) {
+    if (r[0] == '%' && r[1] && r[2]) { char h[3] = { r[1], r[2], 0 }; *w++ = (char)strtol(h, NULL, 16); r += 3; }
+    else *w++ = *r++;
+  }
+  *w = 0;
+  return s;
 }
 static hwloc_bitmap_t parse_set(const char *s) {
   hwloc_bitmap_t b;
@@ -66,6 +106,7 @@ static void out_topos(void) {
       project_topology(topo[s], 1);
       hwv_len--; out(",\"xd\":");                                 /* reopen the projection record */
       if (opt_xmldigest) out_xmldigest(topo[s]); else out("[0,0,0,0,0]");
+      out(",\"stores\":"); if (opt_stores) project_stores(topo[s]); else out("0");
       out("}");
     }
     else out("{\"n\":0,\"live\":%d}", topo[s] ? 1 : 0);
@@ -80,10 +121,10 @@ static void do_reset(char *p, int beh) {
   int s;
   for (s = 0; s < MAXSLOT; s++) { if (topo[s]) hwloc_topology_destroy(topo[s]); topo[s] = NULL; loaded[s] = 0; }
   nslots = (int)hwv_tokl(&p); if (nslots < 1) nslots = 1; if (nslots > MAXSLOT) nslots = MAXSLOT;
-  opt_xmldigest = 0;
+  opt_xmldigest = 0; opt_stores = 0;
   unsetenv("HWLOC_FSROOT"); unsetenv("HWLOC_CPUID_PATH"); unsetenv("HWLOC_COMPONENTS"); unsetenv("HWLOC_XMLFILE"); unsetenv("HWLOC_SYNTHETIC");
   unsetenv("HWLOC_LIBXML"); unsetenv("HWLOC_LIBXML_IMPORT"); unsetenv("HWLOC_LIBXML_EXPORT");
-  unsetenv("HWLOC_THISSYSTEM"); unsetenv("HWLOC_DUMPED_HWDATA_DIR"); unsetenv("HWLOC_X86_TOPOEXT_NUMANODES"); unsetenv("HWLOC_THISSYSTEM_ALLOWED_RESOURCES");
+  unsetenv("HWLOC_THISSYSTEM"); unsetenv("HWLOC_DUMPED_HWDATA_DIR"); unsetenv("HWLOC_X86_TOPOEXT_NUMANODES"); unsetenv("HWLOC_THISSYSTEM_ALLOWED_RESOURCES"); unsetenv("HWLOC_XML_EXPORT_SUPPORT");
   out("{\"e\":\"Reset\",\"beh\":%d,\"nslots\":%d}", beh, nslots); out_end();
 }
 
@@ -96,6 +137,7 @@ static void handler(char **lines, size_t n, int beh) {
     if (!strcmp(cmd, "option")) {
       char *name = hwv_tok(&p); int v = (int)hwv_tokl(&p);
       if (name && !strcmp(name, "xmldigest")) opt_xmldigest = v;
+      if (name && !strcmp(name, "stores")) opt_stores = v;
       continue;
     }
     if (!strcmp(cmd, "env")) {
@@ -115,6 +157,31 @@ static void handler(char **lines, size_t n, int beh) {
       if (!topo[s]) continue;
       hwloc_topology_destroy(topo[s]); topo[s] = NULL; loaded[s] = 0;
       ev_begin("destroy", s); ev_end(0, 0);
+    } else if (!strcmp(cmd, "xml_import")) {
+      /* xml_import DST <buffer|file> <path> <topology flags> <userdata 0|1> <keepall 0|1> : init + set source + configure + load */
+      char *mode = hwv_tok(&p), *path = hwv_tok(&p); unsigned long fl = (unsigned long)hwv_tokl(&p); int ud = (int)hwv_tokl(&p), keepall = (int)hwv_tokl(&p);
+      int r1 = -1, r2 = -1, r3 = -1; char *buf = NULL; long len = 0;
+      if (topo[s]) continue;
+      ndv = 0;
+      hwloc_topology_init(&topo[s]); loaded[s] = 0;
+      if (mode && !strcmp(mode, "buffer")) {
+        FILE *f = fopen(path, "rb");
+        if (f) { fseek(f, 0, SEEK_END); len = ftell(f); fseek(f, 0, SEEK_SET); buf = malloc((size_t)len + 1); if (fread(buf, 1, (size_t)len, f) != (size_t)len) len = 0; buf[len] = 0; fclose(f); }
+        r1 = hwloc_topology_set_xmlbuffer(topo[s], buf ? buf : "", (int)len + 1); err = errno;
+      } else { r1 = hwloc_topology_set_xml(topo[s], path); err = errno; }
+      if (!r1) {
+        r2 = hwloc_topology_set_flags(topo[s], fl);
+        if (keepall) hwloc_topology_set_all_types_filter(topo[s], HWLOC_TYPE_FILTER_KEEP_ALL);
+        if (ud) hwloc_topology_set_userdata_import_callback(topo[s], import_cb);
+        errno = 0;
+        r3 = hwloc_topology_load(topo[s]); err = errno;
+      }
+      free(buf);
+      if (!r3) loaded[s] = 1;
+      ev_begin("xml_import", s); out(",\"mode\":\"%s\",\"path\":", mode ? mode : ""); out_jstr(path);
+      out(",\"flags\":%lu,\"ud\":%d,\"keepall\":%d,\"set\":%d,\"setflags\":%d,\"load\":%d,\"deliv\":", fl, ud, keepall, r1, r2, r3); out_dv();
+      ev_end(!r1 && !r3 ? 0 : -1, err);
+      if (r3) { hwloc_topology_destroy(topo[s]); topo[s] = NULL; loaded[s] = 0; }
     } else if (!topo[s]) {
       continue;
     } else if (!strcmp(cmd, "synthetic")) {
@@ -161,6 +228,24 @@ static void handler(char **lines, size_t n, int beh) {
       char *path = hwv_tok(&p); unsigned long fl = (unsigned long)hwv_tokl(&p);
       ret = hwloc_topology_export_xml(topo[s], path, fl); err = errno;
       ev_begin("export_xml", s); out(",\"path\":"); out_jstr(path); out(",\"flags\":%lu", fl); ev_end(ret, err);
+    } else if (!strcmp(cmd, "xml_export")) {
+      /* xml_export S <buffer|file> <path> <flags> <userdata 0|1> : the bytes always end up in <path> */
+      char *mode = hwv_tok(&p), *path = hwv_tok(&p); unsigned long fl = (unsigned long)hwv_tokl(&p); int ud = (int)hwv_tokl(&p);
+      char *buf = NULL; int len = 0; uint64_t h = 1469598103934665603ULL; long flen = -1; int i2;
+      ndv = 0; dv_fail = 0;
+      hwloc_topology_set_userdata_export_callback(topo[s], ud ? export_cb : NULL);
+      if (mode && !strcmp(mode, "buffer")) {
+        ret = hwloc_topology_export_xmlbuffer(topo[s], &buf, &len, fl); err = errno;
+        if (!ret && buf) { FILE *f = fopen(path, "wb"); if (f) { fwrite(buf, 1, (size_t)len > 0 ? (size_t)len - 1 : 0, f); fclose(f); } }   /* len includes the ending \0 */
+        if (buf) hwloc_free_xmlbuffer(topo[s], buf);
+      } else { ret = hwloc_topology_export_xml(topo[s], path, fl); err = errno; }
+      hwloc_topology_set_userdata_export_callback(topo[s], NULL);
+      { FILE *f = fopen(path, "rb"); if (f) { int c; flen = 0; while ((c = fgetc(f)) != EOF) { h ^= (unsigned char)c; h *= 1099511628211ULL; flen++; } fclose(f); } }
+      (void)i2;
+      ev_begin("xml_export", s); out(",\"mode\":\"%s\",\"path\":", mode ? mode : ""); out_jstr(path);
+      out(",\"flags\":%lu,\"ud\":%d,\"len\":%ld,\"digest\":[%u,%u,%u,%u],\"cbfail\":%d,\"deliv\":", fl, ud, flen,
+          (unsigned)(h & 0xffff), (unsigned)((h >> 16) & 0xffff), (unsigned)((h >> 32) & 0xffff), (unsigned)((h >> 48) & 0xffff), dv_fail);
+      out_dv(); ev_end(ret, err);
     } else if (!strcmp(cmd, "refresh")) {
       ret = hwloc_topology_refresh(topo[s]); err = errno;
       ev_begin("refresh", s); ev_end(ret, err);
@@ -171,7 +256,7 @@ static void handler(char **lines, size_t n, int beh) {
       ev_begin("restrict", s); out(",\"flags\":%lu,\"kind\":\"%s\",\"set\":", fl, kind ? kind : "c"); out_set(set); ev_end(ret, err);
       hwloc_bitmap_free(set);
     } else if (!strcmp(cmd, "insert_misc")) {
-      unsigned long gp = (unsigned long)hwv_tokl(&p); char *name = hwv_tok(&p);
+      unsigned long gp = (unsigned long)hwv_tokl(&p); char *name = pct(hwv_tok(&p));
       hwloc_obj_t parent = find_gp(topo[s], gp), o = NULL;
       if (!parent) continue;
       o = hwloc_topology_insert_misc_object(topo[s], parent, name); err = errno;
@@ -216,13 +301,13 @@ static void handler(char **lines, size_t n, int beh) {
       ev_begin("allow", s); out(",\"flags\":%lu,\"hascs\":%d,\"hasns\":%d,\"cs\":", fl, c ? 1 : 0, nn ? 1 : 0); out_set(c); out(",\"ns\":"); out_set(nn); ev_end(ret, err);
       hwloc_bitmap_free(c); hwloc_bitmap_free(nn);
     } else if (!strcmp(cmd, "add_info")) {
-      unsigned long gp = (unsigned long)hwv_tokl(&p); char *name = hwv_tok(&p), *val = hwv_tok(&p);
+      unsigned long gp = (unsigned long)hwv_tokl(&p); char *name = pct(hwv_tok(&p)), *val = pct(hwv_tok(&p));
       hwloc_obj_t o = find_gp(topo[s], gp);
       if (!o) continue;
       ret = hwloc_obj_add_info(o, name, val ? val : ""); err = errno;
       ev_begin("add_info", s); out(",\"obj\":%lu,\"name\":", gp); out_jstr(name); out(",\"value\":"); out_jstr(val ? val : ""); ev_end(ret, err);
     } else if (!strcmp(cmd, "set_subtype")) {
-      unsigned long gp = (unsigned long)hwv_tokl(&p); char *st = hwv_tok(&p);
+      unsigned long gp = (unsigned long)hwv_tokl(&p); char *st = pct(hwv_tok(&p));
       hwloc_obj_t o = find_gp(topo[s], gp);
       if (!o) continue;
       ret = hwloc_obj_set_subtype(topo[s], o, st && strcmp(st, "-") ? st : NULL); err = errno;
